@@ -467,7 +467,10 @@ impl A9 {
                             }
                         }
                     }
-                    other => out.violations.push(viol("C09", "panic_keyring_parse", format!("{:?} on\n{}", other, text))),
+                    other => {
+                        out.violations.push(viol("C09", "panic_keyring_parse", format!("{:?} on\n{}", other, text)));
+                        out.violations.push(viol("C17", "parser_crashed", format!("{:?} on\n{}", other, text)));
+                    }
                 }
             }
             Kind::Torn { nkeys, seed, faults } => {
@@ -501,7 +504,10 @@ impl A9 {
                         Guarded::Returned(None) => {
                             out.count("probe.torn_rejected", 1);
                         }
-                        other => out.violations.push(viol("C09", "panic_keyring_parse", format!("{:?} on {:?}", other, t))),
+                        other => {
+                            out.violations.push(viol("C09", "panic_keyring_parse", format!("{:?} on {:?}", other, t)));
+                            out.violations.push(viol("C17", "parser_crashed", format!("{:?} on {:?}", other, t)));
+                        }
                     }
                 } else {
                     out.count("probe.torn_not_utf8", 1);
@@ -620,6 +626,7 @@ impl A9 {
                 }
                 if let Guarded::Panicked(m) = &c {
                     out.violations.push(viol("C09", "panic_keyring_parse", format!("{} on {:?}", m, txt)));
+                    out.violations.push(viol("C17", "parser_crashed", format!("{} on {:?}", m, txt)));
                 }
             }
         }
@@ -803,7 +810,12 @@ impl Family for A9 {
                         20 => Tok::Junk((*rng.pick(&["garbage", "Key]", "name = lower", "= nothing", "Nam = x"])).to_string()),
                         21 => Tok::Name((*rng.pick(&["", "k=v", "x y", "# hash"])).to_string()),
                         22 => Tok::Raw((*rng.pick(&["  ", "\t", " \t "])).to_string()),
-                        _ => Tok::Name("x".repeat(*rng.pick(&[1usize, 128, 129]))),
+                        _ => match rng.below(5) {
+                            0 => Tok::Name(format!("a{}", "\u{e9}".repeat(64))),  // 129 bytes, byte 128 inside a character
+                            1 => Tok::Name("\u{20ac}".repeat(43)),                 // 129 bytes
+                            2 => Tok::Name("\u{e9}".repeat(64)),                   // exactly 128 bytes: valid
+                            _ => Tok::Name("x".repeat(*rng.pick(&[1usize, 128, 129]))),
+                        },
                     };
                     toks.push(t);
                 }
